@@ -6,6 +6,7 @@ import (
 	"reflect"
 	"regexp"
 	"strings"
+	"sync"
 	"unsafe"
 
 	"github.com/cockroachdb/redact"
@@ -15,7 +16,7 @@ import (
 func init() {
 	register("C11", &monitor{
 		run: runC11,
-		rule: "(1) parameter-domain edges enumerated: every surrogate, negative, out-of-range and boundary rune for every rune-taking method and all 256 bytes for every byte-taking method of StringBuilder, the SafePrinter (Sprintfn and SafeFormat) and ManualBuffer in every mode, each in 5 buffer states; every reflect.Kind, nil and typed nil for JoinTo; every prefix of 46 hostile formats x 11 operand lists; nil and typed-nil operands through all routes; " +
+		rule: "(1) parameter-domain edges enumerated: every surrogate, negative, out-of-range and boundary rune for every rune-taking method and all 256 bytes for every byte-taking method of StringBuilder, the SafePrinter (Sprintfn and SafeFormat) and ManualBuffer in every mode, each in 5 buffer states (boundary values also with the buffer filled to within a few bytes of its capacity steps); every reflect.Kind, nil and typed nil for JoinTo; every prefix of 46 hostile formats x 11 operand lists; nil and typed-nil operands through all routes; " +
 			"(2) user methods that panic at every position of a script (SafeFormat, SafeMessage, String, Error, Format, GoString; 10 payload modes (incl. a typed nil pointer whose own method dereferences it, alone and inside a slice)), at top level, between literals, inside containers and inside nested Print/Printf; " +
 			"oracle: no panic escapes a public call (except where the payload's own printing panics, as in fmt), output well-formed and line-safe, text written before the failing element identical to the text of the same call cut at that element, PANIC= report in place with the payload inside an envelope, text after it intact; " +
 			"non-trivial = an edge value outside the valid domain or a contained panic was observed; distinct = distinct cases",
@@ -84,6 +85,24 @@ func c11edges(c *Ctx) {
 		for _, m := range []string{"SafeByte", "UnsafeByte", "WriteByte"} {
 			for b := 0; b < 256; b++ {
 				jobs = append(jobs, job{s, Op{M: m, B: byte(b)}})
+			}
+		}
+	}
+	// the same with the buffer filled to within a few bytes of its first allocation (64 bytes) and of the next ones:
+	// a rune-taking method that reserves space by the rune's own length meets a negative length for invalid runes
+	boundary := []int32{0xd800, 0xdbff, 0xdfff, -1, -2147483648, 2147483647, 0x110000, 0x10ffff, 0xfffd, 0, '\n', 0x2039, 0x203a, 0x7f, 0x80, 0x7ff, 0x800, 0x1f600}
+	for _, fill := range []int{55, 56, 57, 58, 59, 60, 61, 62, 63, 64, 65, 125, 126, 127, 128} {
+		for _, sm := range []string{"SafeString", "UnsafeString", "Write"} {
+			edgeSetups = append(edgeSetups, []Op{{M: sm, S: strings.Repeat("f", fill), V: true}})
+			for _, m := range []string{"SafeRune", "UnsafeRune", "WriteRune"} {
+				for _, r := range boundary {
+					jobs = append(jobs, job{len(edgeSetups) - 1, Op{M: m, R: r}})
+				}
+			}
+			for _, m := range []string{"SafeByte", "UnsafeByte", "WriteByte"} {
+				for _, b := range []byte{'a', '\n', 0xe2, 0x80, 0xb9, 0xff} {
+					jobs = append(jobs, job{len(edgeSetups) - 1, Op{M: m, B: b}})
+				}
 			}
 		}
 	}
@@ -352,6 +371,8 @@ func (o c11outer) SafeFormat(p redact.SafePrinter, _ rune) {
 	p.UnsafeString(o.post)
 }
 
+var panicFrameRe = regexp.MustCompile(`%!.\(PANIC=[A-Za-z]+ method: `)
+
 func c11panicCheck(w *Worker, pc c11panicCase, idx int64) {
 	cs := func() interface{} { return pc }
 	bc := newBuildCtx()
@@ -427,6 +448,20 @@ func c11panicCheck(w *Worker, pc c11panicCase, idx int64) {
 			}
 		}
 	}
+	// What is outside envelopes is what the same call cut at that point leaves outside, plus the report's frame: a
+	// contained panic must not leave the printer on the unsafe side (or the safe one) for the text that follows.
+	if pc.Method != "SafeFormat" && (pc.Mode <= 2 || pc.Mode == 8) && !strings.Contains(pc.Msg, "\n") {
+		sof, soc := safeOnly(parse(full)), safeOnly(parse(cut))
+		if loc := panicFrameRe.FindStringIndex(sof); loc != nil {
+			rest := sof[loc[1]:]
+			if strings.HasPrefix(rest, ")") {
+				if got := sof[:loc[0]] + rest[1:]; got != soc {
+					w.Violate("C11 classification-after-panic", "outside envelopes, apart from the report's frame, "+q(got)+"; the same call without the panic leaves "+q(soc)+" outside (full output "+q(full)+")", cs())
+					return
+				}
+			}
+		}
+	}
 	w.Count("contained_panics_observed", 1)
 	w.Nontrivial(hashStrs(sprint(pc.Mode), pc.Msg, pc.Shape, pc.Method, itoa(pc.At), itoa(len(pc.Steps))))
 	if idx%30011 == 5 {
@@ -435,6 +470,18 @@ func c11panicCheck(w *Worker, pc c11panicCase, idx int64) {
 }
 
 // ---- a panic that propagates through a nested printer and is contained further up ---------------
+
+// tPanicNamedStr: a value of string kind with a String method that panics with an unprintable payload (once: the counter
+// of the payload is looked up by the string's own value, a string cannot carry a pointer)
+type tPanicNamedStr string
+
+var namedStrCounters sync.Map
+
+func (s tPanicNamedStr) String() string {
+	k, _ := namedStrCounters.Load(string(s))
+	kp, _ := k.(*int)
+	panic(tBadPayload{msg: "boom", k: kp})
+}
 
 type c11double struct {
 	head  string
@@ -483,6 +530,14 @@ func c11doublePanics(c *Ctx) {
 			var bad interface{} = tStringer{""}
 			if withBad {
 				bad = tPanicStringer{panicSpec{mode: 5, msg: "boom", k: &k}}
+				if i%2 == 1 {
+					// the same through a type of string kind (all operands of the nested call may then be of string kind)
+					key := "named-" + itoa(int(i))
+					namedStrCounters.Store(key, &k)
+					bad = tPanicNamedStr(key)
+				}
+			} else if i%2 == 1 {
+				bad = "" // the twin without the panic: a plain empty string
 			}
 			ok = guard(w, "double-panic-escaped", "a call in which a panic passes through a nested printer and is contained by the enclosing one", cs, func() {
 				out = string(redact.Sprint(c11double{heads[j[0]], firsts[j[1]], bad, j[2]}))
